@@ -24,7 +24,7 @@ def declare(spec):
 
     # next arrival = the (node, class) stream with the smallest date; ties keep the first in dict order
     add(spec, "ArrivalNode.find_next_event_date",
-        requires=["forall_in(self.event_dates_dict, lambda nd: forall_in(self.event_dates_dict[nd], lambda c: is_number(self.event_dates_dict[nd][c])))"],
+        requires=["forall_in(self.event_dates_dict, lambda nd: forall_in(self.event_dates_dict[nd], lambda c: is_time(self.event_dates_dict[nd][c])))"],
         modifies=["next_node@self", "next_class@self", "next_event_date@self"],
         ensures=[
             ("C02+C10:next-arrival-is-the-minimum",
@@ -35,11 +35,11 @@ def declare(spec):
             ("none-iff-no-finite-date", "implies(self.next_node is None, isinf(self.next_event_date))"),
         ],
         loop_invariants={
-            0: ["is_number(mindate)", "minnd is None or is_int(minnd)", "minclss is None or is_str(minclss)",
+            0: ["is_time(mindate)", "minnd is None or is_int(minnd)", "minclss is None or is_str(minclss)",
                 "forall_int(lambda j: implies(0 <= j and j < _i, forall_in(self.event_dates_dict[_it[j]], lambda c: mindate <= self.event_dates_dict[_it[j]][c])), trigger=lambda j: _it[j])",
                 "implies(minnd is not None, minnd in self.event_dates_dict and minclss in self.event_dates_dict[minnd] and self.event_dates_dict[minnd][minclss] == mindate)",
                 "implies(minnd is None, isinf(mindate))"],
-            1: ["is_number(mindate)", "minnd is None or is_int(minnd)", "minclss is None or is_str(minclss)",
+            1: ["is_time(mindate)", "minnd is None or is_int(minnd)", "minclss is None or is_str(minclss)",
                 "forall_int(lambda j: implies(0 <= j and j < _i, mindate <= self.event_dates_dict[nd][_it[j]]), trigger=lambda j: _it[j])",
                 "forall_int(lambda j: implies(0 <= j and j < _i0, forall_in(self.event_dates_dict[_it0[j]], lambda c: mindate <= self.event_dates_dict[_it0[j]][c])), trigger=lambda j: _it0[j])",
                 "implies(minnd is not None, minnd in self.event_dates_dict and minclss in self.event_dates_dict[minnd] and self.event_dates_dict[minnd][minclss] == mindate)",
